@@ -141,6 +141,13 @@ func TestInstanceRingHistoryRapid(t *testing.T) {
 				toks := []uint32{freshTok(), freshTok()}
 				sort.Slice(toks, func(a, b int) bool { return toks[a] < toks[b] })
 				cur[id] = ring.InstanceDesc{Id: idField(i, id), Addr: id + ":1", Zone: zones[i%len(zones)], Tokens: toks, State: ring.ACTIVE, Timestamp: at.Unix(), RegisteredTimestamp: at.Unix() - int64(rapid.IntRange(0, 100).Draw(rt, "regAge"))}
+				if rapid.IntRange(0, 4).Draw(rt, "regUnknown") == 0 {
+					// written by a lifecycler that does not record registration times: 0 = unknown (a later
+					// "reg" update sets it)
+					in := cur[id]
+					in.RegisteredTimestamp = 0
+					cur[id] = in
+				}
 			}
 			n0 := rapid.IntRange(1, 6).Draw(rt, "n0")
 			for i := 0; i < n0; i++ {
